@@ -315,7 +315,7 @@ fn pool_item(k: usize) -> DOp {
         _ => DOp::Rid("a".into(), 3),
     }
 }
-/// the 12-packet alphabet
+/// the 13-packet alphabet (NPKT)
 fn alpha_pkt(k: usize) -> DOp {
     let p = |ssrc: u32, pt: u8, ext: Option<(u16, Vec<u8>)>| DOp::Pkt { ssrc, pt, ext };
     match k {
@@ -636,8 +636,8 @@ pub fn run(args: &Args) {
             replay(&net, case).await;
             return;
         }
-        // ---- demux (1): exhaustive small scope — all subsets of the 7-item registration pool × which listener
-        //      is closed × all packet sequences up to length L over the 12-packet alphabet
+        // ---- demux (1): exhaustive small scope — all subsets of the 9-item registration pool (NPOOL) × which listener
+        //      is closed × all packet sequences up to length L over the 13-packet alphabet
         let maxlen = if args.tier_thorough { 3 } else { 2 };
         let mut n_ex = 0u64;
         for subset in 0..(1usize << NPOOL) {
@@ -754,7 +754,7 @@ pub fn run(args: &Args) {
         run.count_n("bridge_random_sequences", nb);
         run.exhaustive = true;
         run.notes.insert("exhaustive_scope".into(), serde_json::json!(format!(
-            "demux: 2^9 registration subsets x 4 closed-listener choices x all packet sequences of length <= {maxlen} over 12 packets; bridge: 26 rule tables x all sequences of length <= {blen} over 16 symbols")));
+            "demux: 2^9 registration subsets x 4 closed-listener choices x all packet sequences of length <= {maxlen} over {NPKT} packets; bridge: 26 rule tables x all sequences of length <= {blen} over 16 symbols")));
     });
     run.finish();
 }
